@@ -731,6 +731,24 @@ def _r9_record_header_verbatim(ctx):
                 width = WIDTH[m.group(1)]
                 order = sorted(w, key=lambda x: sum(1 for y in w if cfg.dominates(y[1][3], x[1][3])))
                 okk = [x[0] for x in order] == [256 ** (width - 1 - i) for i in range(width)] and len({x[1][1] for x in w}) == 1
+            if not okk and m and v[0] == "call" and str(v[1]).endswith("%s>::from_be_bytes" % m.group(1)) and norm(v[2][0])[0] == "repeat":
+                # the array filled in order by a loop: `for o in octets.iter_mut() { *o = self.get_u8()? }; from_be_bytes(octets)`
+                width = WIDTH[m.group(1)]
+                rep = norm(v[2][0])
+                reads = [(bb2, tm2) for bb2, tm2 in b.calls() if (callee_name(tm2) or "").endswith("::get_u8")]
+                loops = [cfg.natural_loop(e) for e in cfg.back_edges()]
+                forward = any((callee_name(tm2) or "").endswith("::iter_mut") for _, tm2 in b.calls()) and not any(
+                    (callee_name(tm2) or "").rsplit("::", 1)[-1] in ("rev", "skip", "step_by", "take", "filter", "rchunks") for _, tm2 in b.calls())
+                stores = []
+                for bb2, idx2, st2 in b.stmts():
+                    if len(st2["p"]) == 2 and st2["p"][1] == "*" and st2.get("rv") and b.local_ty(st2["p"][0]).replace(" ", "") == "&mutu8":
+                        stores.append(norm(T.rvalue(st2["rv"], bb2, idx2)))
+                okk = len(rep) > 2 and const_value(("const", rep[2]) if not isinstance(rep[2], tuple) else rep[2]) in (width, None) and len(reads) == 1 and \
+                    any(reads[0][0] in l for l in loops) and forward and len(stores) == 1 and stores[0][0] == "payload" and \
+                    norm(stores[0][2])[0] == "call" and str(norm(stores[0][2])[1]).endswith("::get_u8") and b.local_ty(0).startswith("std::result::Result<%s," % m.group(1))
+                if okk:
+                    arr = [l for l, d in enumerate(b.locals) if d.get("ty", "").replace(" ", "") == "[u8;%d]" % width]
+                    okk = len(arr) >= 1
             ctx.check(okk, "R9", "reader:%s=big-endian-octets" % name, ctx.where(b, st["sp"]),
                       "the value must be the next octets in network order, nothing else (is %s)" % show(v)[:160])
 
